@@ -11,7 +11,7 @@ RULE = (
     "session engine: every sequence up to the tier's depth over {define/redefine f, del f, alias g = f, del g, "
     "lst.append(closure), lst.pop(), lst.clear(), d['k'] = closure (overwrite), occurrence burst (state changes of "
     "every watched entity, event, MQTT message, webhook, service call, 6 s of virtual time)} executed as interactive "
-    "cells in a Jupyter-style global context, for each trigger mix (state over one name; state over value + .old + "
+    "cells in a Jupyter-style global context and finally an unload of the integration with the session still open, for each trigger mix (state over one name; state over value + .old + "
     "second entity under entity-name pairs chosen so that all iteration orders of the watched-name set occur; "
     "attribute + wildcard; time period; event; mqtt; webhook; @service; startup+shutdown; combination) and both "
     "subsystems; file engine: every sequence over {edit+reload, delete+reload, #-rename+reload, restore+reload, "
@@ -377,6 +377,34 @@ def run_session(mixname, legacy, seq):
                 pending.append((i, op, copy.deepcopy(s.m), cen))
         if s.w.errors:
             return {"kind": "loop-exception", "detail": repr(s.w.errors[0])[:300]}, trace, s.m, None
+        # finally the integration is unloaded with the session still open: whatever is live is deactivated, nothing exceeds the baseline
+        shut = [(g, "time", "shutdown") for g in s.m.live()] if (mix[1].get("updown") or mix[1].get("down")) else []
+        runs_list = s.g()["runs"]
+        n_before = len(runs_list)
+        entry = s.w.hass.config_entries.async_entries("pyscript")[0]
+        s.w.run(s.w.hass.config_entries.async_unload(entry.entry_id))
+        s.w.collect()
+        s.w.collect()
+        got_shut = [tuple(r) for r in runs_list[n_before:]]
+        if not match_runs(shut, got_shut):
+            return _mark(s, {"kind": "runs-at-unload", "op": "UNLOAD", "expected": shut, "observed": got_shut}), trace, s.m, None
+        cen = s.census()
+        diff = {}
+        for typ, cnt in cen["listeners"].items():
+            if cnt > s.base["listeners"].get(typ, 0):
+                diff.setdefault("listeners", {})[typ] = (s.base["listeners"].get(typ, 0), cnt)
+        for k in ("webhooks", "mqtt", "state_notify", "event_notify", "mqtt_notify", "webhook_notify"):
+            if cen[k] != s.base[k]:
+                diff[k] = (s.base[k], cen[k])
+        svc = {d: sorted(set(v) - set(s.base["services"].get(d, []))) for d, v in cen["services"].items()}
+        svc = {d: v for d, v in svc.items() if v}
+        if svc:
+            diff["services"] = svc
+        for k in ("our_tasks", "timers"):
+            if cen[k] > s.base[k]:
+                diff[k] = (s.base[k], cen[k])
+        if diff:
+            return _mark(s, {"kind": "leak-after-unload", "op": "UNLOAD", "diff": diff}), trace, s.m, None
     finally:
         s.close()
     # differential census check (only one world may exist at a time, so it happens after this one is closed)
